@@ -11,7 +11,9 @@ RULE = ("every acyclic ADMG(n) n<=3 quick / n<=4 thorough under the label famili
         "(beyond the property's quantifier); the empty graph; every small graph also as pywhy_graphs.ADMG instance / three-layer "
         "MixedEdgeGraph with an edge-less third layer, and with user node attributes that look like the generated ones "
         "(label='Unobserved Confounders', observed='no'/'yes', on all or on seeded nodes incl. common parents of bidirected pairs); "
-        "query sets checked for mutation; HISTORY-BUILT inputs (attributes given by add_node(**kw) or by constructor layers whose "
+        "query sets checked for mutation; LABEL VALUES (int/str twins 1 and '1' in one graph, generated-name look-alikes with "
+        "Unicode digits / leading zeros / signs / floats such as 'U\u00b2', 'U\u2460', 'U01', 'U-1', 'U1.0', labels equal across the numeric "
+        "tower 0.0 / True / 2.0 and ('F', 0.0)); HISTORY-BUILT inputs (attributes given by add_node(**kw) or by constructor layers whose "
         "nodes carry data, then overwritten / deleted / extended through G.nodes[n], set_node_attributes, add_nodes_from; attribute "
         "keys of type int and tuple and keys named node_for_adding / u_of_edge / edge_type / domain_ids on nodes, both edge layers "
         "and the graph; result attributes must equal G.nodes exactly and be independent copies); multi-digit generated-looking caller names ('U9','U10',.. / 'U2','U10' / 'U98'..) and "
@@ -42,6 +44,15 @@ LEVEL_NOTE = ("Observed by correspondence only: node attributes are kept, the re
 TECHNIQUE = "Coq proof (model satisfies spec) + extracted-model correspondence (tie K)"
 SPOT_N = 10
 UFAMS = ("U", "Urev", "Ushift")
+VALUE_FAMS = {
+    # int / str twins in one graph
+    "twin": [0, "0", 1, "1", 2, "2", 3, "3", 4, "4"],
+    # look-alikes of generated names: Unicode digits (str.isdigit() is True, int() raises or differs), leading zeros, signs, floats
+    "udigit": ["U\u00b2", "U\u2460", "U\u0663", "U01", "U-1", "U1.0", "U", "U0", "u0", "U 1"],
+    "udigit2": ["U0", "U\u0661", "U00", "U1", "U\u00b9", "U+1", "U1_0", "U\u2461", "UU0", "U2"],
+    # labels equal to ints across the numeric tower (1 == 1.0 == True: ONE of them per value) and tuples that are equal across types
+    "numeq": [0.0, True, 2.0, 3, ("F", 0.0), ("F", 1), 6.0, 7, ("F", 2.0), 9],
+}
 NAME_SETS = [["dir", "bidir"], ["bidirected", "directed"], ["->", "<->"]]
 
 
@@ -68,7 +79,7 @@ def gen_cases(tier, rng):
     for n in range(1, nmax + 1):
         for g in gr.enum_admg(n):
             qs = queries(g["V"])
-            fams = [None, "U"] + (["Urev", "Ushift", "U9", "obj"] if g["B"] and n <= 3 else [])
+            fams = [None, "U"] + (["Urev", "Ushift", "U9", "obj", "twin", "udigit", "udigit2", "numeq"] if g["B"] and n <= 3 else [])
             for fam in fams:
                 yield {"kind": "admg%d" % n, "g": g, "fam": fam, "qs": qs, "oracle": True, "aseed": rng.randrange(64)}
     # HISTORY-BUILT inputs (flavour N): attributes given by add_node(**kw) / constructor layers and later overwritten, deleted or
@@ -106,7 +117,7 @@ def gen_cases(tier, rng):
         yield {"kind": "deep", "g": g, "fam": None if L != 220 else "str", "qs": [], "iqs": iqs, "oracle": False,
                "aseed": L, "_reclimit": 120, "okind": ("mixed2", "admg", "mixed3")[L % 3]}
     nr = 240 if tier == "quick" else 2400
-    fams = [None, "U", "Urev", "Ushift", "tuple", "str", "U9", "obj", "U2_10", "U98"]
+    fams = [None, "U", "Urev", "Ushift", "tuple", "str", "U9", "obj", "U2_10", "U98", "twin", "udigit", "udigit2", "numeq"]
     for i in range(nr):
         n = rng.randint(4, 8)
         g = gr.random_kinds_graph(rng, n, gr.ADMG_KINDS, p_edge=rng.choice([0.15, 0.25, 0.4]))
@@ -184,6 +195,17 @@ def labels(case):
     if fam in gr.LABEL_FAMILIES:
         return gr.labeler({"_lab": fam})
     n = len(case["g"]["V"])
+    if fam in VALUE_FAMS:
+        # LABEL VALUES (flavour T): the label objects themselves (no string building)
+        seq = VALUE_FAMS[fam]
+        f0 = lambda v: seq[v] if v < len(seq) else ("x", v)  # noqa: E731
+        table = {}
+
+        def lab0(v):
+            x = f0(v)
+            table[x] = v
+            return x
+        return lab0, (lambda x: table[x])
     f = {"U": lambda v: "U%d" % v, "Urev": lambda v: "U%d" % (n - 1 - v), "Ushift": lambda v: "U%d" % (v + 1),
          "U9": lambda v: "U%d" % (v + 9),                       # U9, U10, ...: straddles a digit boundary
          "U2_10": lambda v: "U%d" % ([2, 10] + list(range(30, 30 + n)))[v],
